@@ -20,7 +20,7 @@ tier: B
 backend: cadical
 unwind: 10
 unwind_thorough: 12
-bound: vector length <= 4, all key values (ascending, duplicates allowed), element of any key; except: one-element vector and element equal to it
+bound: vector length <= 4, all key values (ascending, duplicates allowed), element of any key; except: one-element vector and element equal to it [thorough tier: lengths up to 5]
 funcs: spif_dlinked_list_insert, spif_dlinked_list_item_comp
 */
 /*@unit
@@ -42,7 +42,7 @@ tier: B
 backend: cadical
 unwind: 10
 unwind_thorough: 12
-bound: vector length <= 4, all key values (ascending, duplicates allowed), probe of any key
+bound: vector length <= 4, all key values (ascending, duplicates allowed), probe of any key [thorough tier: lengths up to 5]
 funcs: spif_dlinked_list_remove
 */
 /*@unit
@@ -53,7 +53,7 @@ tier: B
 backend: cadical
 unwind: 10
 unwind_thorough: 12
-bound: vector length <= 4, all key values (ascending, duplicates allowed), probe of any key
+bound: vector length <= 4, all key values (ascending, duplicates allowed), probe of any key [thorough tier: lengths up to 5]
 funcs: spif_dlinked_list_vector_find, spif_dlinked_list_vector_contains
 */
 /*@unit
@@ -64,7 +64,7 @@ tier: B
 backend: cadical
 unwind: 10
 unwind_thorough: 12
-bound: vector length <= 4, all key values (ascending, duplicates allowed)
+bound: vector length <= 4, all key values (ascending, duplicates allowed) [thorough tier: lengths up to 5]
 funcs: spif_dlinked_list_to_array, spif_dlinked_list_iterator, spif_dlinked_list_iterator_has_next, spif_dlinked_list_iterator_next, spif_dlinked_list_count
 */
 #include "vprelude.h"
